@@ -332,11 +332,15 @@ func TestC10(t *testing.T) {
 		kinds = 24
 		rounds = 300
 	}
+	racePass := os.Getenv("VERIF_RACE_PASS") != ""
+	if racePass {
+		rounds = 12 // this binary is built with -race: the volume rounds only, a few of them
+	}
 	// volume rounds first (the distribution over workers is the real scheduler's)
 	passed, failed := 0, 0
 	for r := 0; r < rounds && failed < 3; r++ {
 		n := 200000
-		if r%3 == 0 {
+		if r%3 == 0 || racePass {
 			n = 2000
 		}
 		par := []int{2, 4, 8, 16}[r%4]
@@ -369,6 +373,10 @@ func TestC10(t *testing.T) {
 		}
 	}
 	runtime.GOMAXPROCS(runtime.NumCPU())
+	if racePass {
+		enc.Encode(map[string]any{"race_stats": map[string]int{"passed": passed, "failed": failed}})
+		return
+	}
 	enc.Encode(map[string]any{"volume_stats": map[string]int{"passed": passed, "failed": failed}})
 	pars := []int{1, 2, 3, 4, 7}
 	// mode 4: sum over reference-typed accumulators (preloaded input, real scheduler)
